@@ -218,8 +218,10 @@ def argsLoop (sep : Byte) : Nat → Msg → List Byte → Nat → Res (Nat × Li
     | (_, .fault) => .fault
 
 /-- `mpt_array_message(arr, msg, sep)`: number of arguments and the new array content -/
-def arrayMessage (m : Msg) (sep : Byte) : Res (Nat × List Byte) :=
-  if m.length = 0 then .ok (0, []) else argsLoop sep (m.length + 1) m [] 0
+def arrayMessage (m : Msg) (sep : Byte) (allocOk : Bool := true) : Res (Nat × List Byte) :=
+  if m.length = 0 then .ok (0, [])
+  else if !allocOk then .err .BadOperation       -- mpt_array_slice(&a, 0, len+1) failed
+  else argsLoop sep (m.length + 1) m [] 0
 
 /-- `mpt_message_append(arr, msg)` (after fix 4f20369): base part unless empty, then every
     non-empty continuation fragment -/
@@ -247,6 +249,12 @@ def get (r : Ring) (off take : Nat) : Res Msg :=
       let a ← Mem.rd r.store base low
       let c ← Mem.rd r.store 0 (take - low)
       pure ⟨a, [c]⟩
+
+/-- `mpt_message_get` with `vec = NULL`: a stretch that needs a second fragment is refused (−3) -/
+def getNoVec (r : Ring) (off take : Nat) : Res Msg :=
+  match get r off take with
+  | .ok m => if m.cont.length = 0 then .ok m else .err .BadType
+  | x => x
 
 end Msg
 end Mpt
